@@ -3,6 +3,7 @@
 //! note: sweeping recovered outputs (util/transaction_utils.rs maybe_add_change_output, used by spend_spendable_outputs / OutputSweeper): the requested outputs are kept, the transaction pays at least the requested feerate at the weight it reports, and whatever exceeds that goes to the change script unless it is below that script's dust value
 //! trusted: env: bitcoin types are skeletons: Amount(u64) with bitcoin::Amount's checked `+=` and `-` (they panic on overflow/underflow: obligations), comparison by value, MAX_MONEY = 21e14 sat; ScriptBuf opaque with an uninterpreted minimal_non_dust() (at most MAX_MONEY: bitcoin computes it from the script length); TxOut / Transaction field skeletons; Transaction::weight() is an uninterpreted function of the transaction *before* the change output is added (the function reads it once, before pushing); VarInt(n).size() is bitcoin's compact-size length (1/3/5/9 bytes); R8: `change_output.consensus_encode(&mut sink()).unwrap()` -> encoded_len(&change_output) (the serialized length of a TxOut: 8 + compact size + script length, bounded by 10_009 for a standard script)
 //! trusted: R15 (deep slices): SpendableOutputDescriptor::create_spendable_outputs_psbt: the TxIn built in each of the three arms (static payment output with its `sequence` statement, delayed payment output, static output) verbatim as functions of the descriptor; OutPoint::into_bitcoin_outpoint is re-declared (txid, index widened to u32); the duplicate test, the witness weights, the input value sum (MAX_MONEY test) and the PSBT assembly are dropped and not claimed
+//! trusted: R15 (deep slices): KeysManager::sign_spendable_outputs_psbt: the statement that (re)fills the per-channel signer cache in the StaticPaymentOutput and DelayedPaymentOutput arms, verbatim as functions of the cache and the descriptor; derive_channel_keys is the uninterpreted signer_of(channel_keys_id); R8: `a != b` on 32-byte ids -> arr_ne; locating the input, signing and the StaticOutput arm are dropped and not claimed
 //! assume: every requested output carries at most MAX_MONEY (a valid TxOut): the loop sums them with bitcoin::Amount's `+=`, which panics on u64 overflow before the `>= input_value` test can refuse (observation O8 in DESIGN); at most 1_000_000 outputs
 //! assume: transaction weight and witness weight are at most 4_000_000 (consensus block weight limit): the function computes fees in i64 after `as i64` casts
 //! trusted: assume_specification for core::cmp::max / core::cmp::min (std definitions): present in every unit so that a change that introduces them is verified instead of being rejected by the tool
@@ -179,6 +180,54 @@ pub struct DelayedPaymentOutputDescriptor { pub outpoint: OutPoint, pub to_self_
     r.previous_output.txid == outpoint.txid && r.previous_output.vout == outpoint.index as u32,
     r.sequence.0 == 0,
 //@end
+}
+
+// ---- KeysManager::sign_spendable_outputs_psbt: each output is signed with its own channel's keys ------------
+pub mod sweep_signer {
+use vstd::prelude::*;
+pub struct InMemorySigner { pub id: u64 }
+pub uninterp spec fn signer_of(channel_keys_id: [u8; 32]) -> InMemorySigner;
+pub struct KeysManager {}
+impl KeysManager { #[verifier::external_body] pub fn derive_channel_keys(&self, id: &[u8; 32]) -> (r: InMemorySigner) ensures r == signer_of(*id) { unimplemented!() } }
+pub struct Descriptor { pub channel_keys_id: [u8; 32] }
+#[verifier::external_body] pub fn arr_ne(a: &[u8; 32], b: &[u8; 32]) -> (r: bool) ensures r == (*a != *b) { unimplemented!() }
+pub open spec fn cache_ok(c: Option<(InMemorySigner, [u8; 32])>) -> bool { c is Some ==> c->Some_0.0 == signer_of(c->Some_0.1) }
+impl KeysManager {
+//@extract lightning/src/sign/mod.rs :: impl KeysManager :: fn sign_spendable_outputs_psbt
+//@slice R15
+    let input_idx = get_input_idx(&descriptor.outpoint)?; $refill:straight let witness = keys_cache.as_ref().unwrap().0.sign_counterparty_payment_input(
+//@with
+    fn signer_for_static_payment_output(&self, keys_cache_in: Option<(InMemorySigner, [u8; 32])>, descriptor: &Descriptor) -> Option<(InMemorySigner, [u8; 32])> { let mut keys_cache = keys_cache_in; $refill keys_cache }
+//@rw R8
+    keys_cache.as_ref().unwrap().1 != descriptor.channel_keys_id
+//@with
+    arr_ne(&keys_cache.as_ref().unwrap().1, &descriptor.channel_keys_id)
+//@ret r
+//@requires
+    cache_ok(keys_cache_in),
+//@ensures P C07 a-to-remote-output-is-signed-with-the-keys-of-the-channel-it-belongs-to
+    r is Some && r->Some_0.1 == descriptor.channel_keys_id && r->Some_0.0 == signer_of(descriptor.channel_keys_id),
+//@end
+//@extract lightning/src/sign/mod.rs :: impl KeysManager :: fn sign_spendable_outputs_psbt
+//@slice R15
+    let input_idx = get_input_idx(&descriptor.outpoint)?; $refill:straight let witness = keys_cache.as_ref().unwrap().0.sign_dynamic_p2wsh_input(
+//@with
+    fn signer_for_delayed_payment_output(&self, keys_cache_in: Option<(InMemorySigner, [u8; 32])>, descriptor: &Descriptor) -> Option<(InMemorySigner, [u8; 32])> { let mut keys_cache = keys_cache_in; $refill keys_cache }
+//@rw ? R8
+    keys_cache.as_ref().unwrap().1 != descriptor.channel_keys_id
+//@with
+    arr_ne(&keys_cache.as_ref().unwrap().1, &descriptor.channel_keys_id)
+//@ret r
+//@requires
+    cache_ok(keys_cache_in),
+//@ensures P C07 a-delayed-to-self-output-is-signed-with-the-keys-of-the-channel-it-belongs-to
+    r is Some && r->Some_0.1 == descriptor.channel_keys_id && r->Some_0.0 == signer_of(descriptor.channel_keys_id),
+//@mutant cached_keys_of_another_channel_reused
+    if keys_cache.is_none() || keys_cache.as_ref().unwrap().1 != descriptor.channel_keys_id { keys_cache = Some(( self.derive_channel_keys
+//@with
+    if keys_cache.is_none() { keys_cache = Some(( self.derive_channel_keys
+//@end
+}
 }
 }
 fn main() {}
